@@ -7,6 +7,15 @@ Argument shape = space separated argument kinds:
   k  branch index                    u  real in (-1, 1)         o  order: integer or real (Bessel-like)
 Arguments are generated as *specs* so that the very same exact values can be built in the tree and in the
 reference library:   ('I', int)  ('R', raw)  ('C', raw_re, raw_im)  with raw = canonical (sign, man, exp, bc).
+
+Categories without a trailing '+' are the original table (names(category) of those is stable: other checks
+iterate them).  Categories with a trailing '+' ('zeta+', 'hyper+', ...) and 'arith', 'exact', 'constant', 'inspect'
+were added later so that *every* public callable of mp is either in ENTRIES or in EXCLUDED (see consistency()).
+Their shapes may use the additional kinds
+  Lz list of 1..4 numbers   La list of 0..3 parameters   G pair of parameter lists (meijerg)   chi Dirichlet character
+  ek kind string of ellipfun   NAME=kind  keyword argument
+which produce the additional specs ('S', str)  ('L', [spec, ...])  ('K', name, spec); build() handles S and L,
+split_args()/call() handle K (keyword) specs.  family(name) maps 'zeta+' -> 'zeta'.
 """
 import math
 from .exactq import canon, fzero
@@ -87,6 +96,116 @@ _add('numtheory', 'i', 'fib fibonacci bernoulli eulernum bell primepi mangoldt m
 _add('numtheory', 'n n', 'stirling1 stirling2')
 _add('numtheory', 'n z', 'cyclotomic')
 
+# =========================================================================================
+# Later additions (categories ending in '+', 'arith', 'exact', 'constant', 'inspect'): the rest of the numeric
+# public callables, so that the cross-cutting monitors (C01, C10, C11, C24) can reach every one of them.
+# =========================================================================================
+_add('elementary+', 'z', 'polar')                      # returns a tuple (r, phi)
+_add('elementary+', 'x x', 'rect')
+_add('elementary+', 'n1', 'unitroots')                 # returns a list
+_add('elementary+', 'Lz z', 'polyval')
+_add('utility+', 'z', 'absmax absmin conjugate chop')
+_add('utility+', 'x x x', 'arange')
+_add('utility+', 'x x n1', 'linspace')
+_add('gamma+', 'La La', 'gammaprod')
+_add('zeta+', 'z chi', 'dirichlet')
+_add('zeta+', 'z', 'secondzeta rs_zeta')
+_add('zeta+', 'x', 'rs_z')
+_add('zeta+', 'p', 'nzeros backlunds')
+_add('zeta+', 'n', 'grampoint')
+_add('zeta+', 'n1', 'zetazero')
+_add('bessel+', 'o p', 'coulombc')
+_add('hyper+', 'La La z', 'hyper')
+_add('hyper+', 'La La u', 'bihyper')
+_add('hyper+', 'G G z', 'meijerg')
+_add('hyper+', 'a a a a a u u', 'appellf2 appellf3')
+_add('hyper+', 'a a a a u u', 'appellf4')
+_add('hyper+', 'z q', 'qgamma qfac')
+_add('hyper+', 'La La q u', 'qhyper')
+_add('elliptic+', 'z', 'agm1')
+_add('elliptic+', 'ek z m', 'ellipfun')
+_add('elliptic+', 'm=m', 'kfrom qfrom qbarfrom taufrom')
+_add('elliptic+', 'q=q', 'mfrom')
+# arithmetic helper functions (rounded to the working precision unless exact=True / prec=inf is given)
+_add('arith', 'z z', 'fadd fsub fmul fdiv')
+_add('arith', 'z', 'fneg')
+_add('arith', 'Lz', 'fsum fprod')
+_add('arith', 'Lz Lz', 'fdot')
+# documented exact (C10 exemption list)
+_add('exact', 'x i', 'ldexp')
+_add('exact', 'x', 'frexp')
+_add('exact', 'z', 'convert mpmathify')
+# constants: callable objects  pi(prec=, dps=, rounding=)
+_add('constant', '', 'pi e phi euler catalan apery khinchin glaisher twinprime mertens degree ln2 ln10 eps')
+# classification / inspection helpers returning Python ints / bools / tuples of ints
+_add('inspect', 'z', 'isinf isnan isnormal isint isfinite isnpint mag nint_distance')
+_add('inspect', 'z z', 'almosteq')
+
+# Public callables of mp that are deliberately NOT in the table, with the reason.
+EXCLUDED = {}
+
+
+def _excl(reason, names):
+    for n in names.split():
+        EXCLUDED[n] = reason
+
+
+_excl('plotting', 'plot cplot splot default_color_function phase_color_function')
+_excl('number / matrix / exception types (constructors are driven directly by the checks that need them)',
+      'mpf mpc mpq matrix constant ComplexResult NoConvergence')
+_excl('raw constructors used by the harness itself to inject exact operands', 'make_mpf make_mpc')
+_excl('context utility (precision management, configuration, printing, cloning); no numeric result',
+      'clone default extraprec extradps workprec workdps autoprec init_builtins warn bad_domain maxcalls memoize '
+      'nstr nprint npconvert to_fixed fraction rand')
+_excl('matrix / linear-algebra routine (matrix arguments; properties C30-C33)',
+      'LU_decomp L_solve U_solve cholesky cholesky_solve cond det diag eig eig_sort eigh eighe eigsy expm cosm sinm logm '
+      'sqrtm powm extend eye hessenberg hilbert householder improve_solution inverse lu lu_solve lu_solve_mat mnorm norm '
+      'ones qr qr_solve randmatrix residual schur svd svd_c svd_r swap_row unitvector zeros gauss_quadrature')
+_excl('calculus routine taking a callback (properties C26-C29, C34, C36, C42)',
+      'quad quadgl quadts quadosc nsum nprod limit diff diffs diffs_exp diffs_prod diffun differint difference taylor pade '
+      'jacobian findroot multiplicity polyroots odefun fourier fourierval chebyfit invertlaplace invlapdehoog '
+      'invlapstehfest invlaptalbot sumem sumap richardson shanks levin cohen_alt adaptive_extrapolation '
+      'sum_accurately mul_accurately hypercomb')
+_excl('integer relation / constant recognition (property C35)', 'pslq findpoly identify')
+_excl('internal summation kernel (coefficient-type flags, not a user-level numeric signature); reached through hyper()',
+      'hypsum')
+_excl('dict-of-lists parameter structure; reached through appellf1..appellf4 which call it', 'hyper2d')
+_excl('internal helper of the error-function family (returns a pair of scaled arguments)', 'square_exp_arg')
+_excl('downloads a table from the network', 'oldzetazero')
+_excl('memoised alias of zetazero (same code)', 'zetazero_memoized')
+_excl('returns an interval (iv.mpf), not an mp number', 'primepi2')
+_excl('exact rational / integer list helpers (no mpf result)', 'bernfrac list_primes')
+
+
+def family(name):
+    """category of a function without the '+' marker of later additions"""
+    return ENTRIES[name][0].rstrip('+')
+
+
+def consistency(ctx):
+    """Setup self-test: names of public callables (and public types) of the context that are neither in ENTRIES
+    nor in EXCLUDED, plus table names that do not exist on the context.  Should be empty."""
+    bad = []
+    for name in dir(ctx):
+        if name.startswith('_'):
+            continue
+        try:
+            v = getattr(ctx, name)
+        except Exception:
+            continue
+        if not callable(v):
+            continue
+        if name not in ENTRIES and name not in EXCLUDED:
+            bad.append(name)
+    for name in list(ENTRIES) + list(EXCLUDED):
+        if not hasattr(ctx, name):
+            bad.append('missing-on-context:' + name)
+    for name in ENTRIES:
+        if name in EXCLUDED:
+            bad.append('both-listed:' + name)
+    return sorted(bad)
+
+
 # functions whose documented behaviour includes raising for some numeric arguments
 DOCUMENTED_EXC = ('ValueError', 'ZeroDivisionError', 'NoConvergence', 'NotImplementedError', 'ComplexResult',
                   'OverflowError')
@@ -95,8 +214,23 @@ DOCUMENTED_EXC = ('ValueError', 'ZeroDivisionError', 'NoConvergence', 'NotImplem
 ALIASES = {}
 
 
-def names(category=None):
-    return sorted(n for n, (c, s) in ENTRIES.items() if (category is None or c == category) and ALIASES.get(n, n))
+ORIGINAL_CATEGORIES = ('elementary', 'intpart', 'utility', 'gamma', 'zeta', 'expint', 'bessel', 'hyper', 'elliptic',
+                       'numtheory')
+ADDED_CATEGORIES = ('elementary+', 'utility+', 'gamma+', 'zeta+', 'bessel+', 'hyper+', 'elliptic+', 'arith', 'exact',
+                    'constant', 'inspect')
+
+
+def names(category=None, extended=False):
+    """names of one category; with category=None the names of the ORIGINAL categories (backward compatible: their
+    specs are plain I/R/C positional arguments), or of all categories when extended=True"""
+    if category is None:
+        cats = ORIGINAL_CATEGORIES + (ADDED_CATEGORIES if extended else ())
+        return sorted(n for n, (c, s) in ENTRIES.items() if c in cats and ALIASES.get(n, n))
+    return sorted(n for n, (c, s) in ENTRIES.items() if c == category and ALIASES.get(n, n))
+
+
+def all_names():
+    return names(None, extended=True)
 
 
 # ---------------------------------------------------------------------------------------
@@ -113,6 +247,19 @@ def C(re, im):
 
 def I(n):
     return ('I', int(n))
+
+
+def S(text):
+    return ('S', str(text))
+
+
+def L(items):
+    return ('L', list(items))
+
+
+def K(name, spec):
+    """keyword argument name=spec (only produced for shapes of the later-added categories)"""
+    return ('K', name, spec)
 
 
 def raw_from_float(f):
@@ -139,7 +286,31 @@ def build(ctx, spec):
         return ctx.make_mpf(_mpz(ctx, spec[1]))
     if k == 'C':
         return ctx.make_mpc((_mpz(ctx, spec[1]), _mpz(ctx, spec[2])))
+    if k == 'S':
+        return spec[1]
+    if k == 'L':
+        return [build(ctx, x) for x in spec[1]]
+    if k == 'K':
+        raise ValueError('keyword spec: use split_args()/call()')
     raise ValueError(spec)
+
+
+def split_args(ctx, specs):
+    """(args, kwargs) built from a spec list that may contain K (keyword) specs"""
+    args, kw = [], {}
+    for sp in specs:
+        if sp[0] == 'K':
+            kw[sp[1]] = build(ctx, sp[2])
+        else:
+            args.append(build(ctx, sp))
+    return args, kw
+
+
+def call(ctx, name, specs, **kwargs):
+    """ctx.<name>(*specs, **kwargs) with keyword specs honoured"""
+    args, kw = split_args(ctx, specs)
+    kw.update(kwargs)
+    return getattr(ctx, name)(*args, **kw)
 
 
 def _mpz(ctx, raw):
@@ -200,7 +371,37 @@ def gen_args(name, r, bits=53, mag=None, real_only=False):
     cat, shape = ENTRIES[name]
     out = []
     for kind in shape.split():
-        if kind in ('z', 'x', 'p', 'u', 'u01'):
+        if '=' in kind:
+            kwname, kind = kind.split('=')
+            sub = _gen_kind(kind, r, bits, mag, real_only)
+            out.append(K(kwname, sub))
+            continue
+        out.append(_gen_kind(kind, r, bits, mag, real_only))
+    return out
+
+
+def _gen_kind(kind, r, bits, mag, real_only):
+    out = []
+    if True:
+        if kind == 'Lz':
+            n = r.randint(1, 4)
+            out.append(L([gen_number(r, bits, 'x' if real_only else 'z', mag or (-3, 3)) for _ in range(n)]))
+        elif kind == 'La':
+            n = r.choice([0, 1, 1, 2, 2, 3])
+            items = [gen_param(r, bits) for _ in range(n)]
+            if real_only:
+                items = [R(p[1]) if p[0] == 'C' else p for p in items]
+            out.append(L(items))
+        elif kind == 'G':
+            def plist():
+                items = [gen_param(r, bits) for _ in range(r.choice([0, 1, 1, 2]))]
+                return L([R(p[1]) if (real_only and p[0] == 'C') else p for p in items])
+            out.append(L([plist(), plist()]))
+        elif kind == 'chi':
+            out.append(L([I(v) for v in r.choice([[1], [1], [0, 1], [0, 1, 0, -1], [0, 1, -1], [-1, 1]])]))
+        elif kind == 'ek':
+            out.append(S(r.choice(['sn', 'cn', 'dn', 'sc', 'cd', 'nd', 'ns', 'ds'])))
+        elif kind in ('z', 'x', 'p', 'u', 'u01'):
             k2 = 'x' if (real_only and kind == 'z') else kind
             out.append(gen_number(r, bits, k2, mag))
         elif kind == 'x0':
@@ -246,4 +447,4 @@ def gen_args(name, r, bits=53, mag=None, real_only=False):
             out.append(C(raw_rand(r, bits, -3, 1), raw_rand(r, bits, -1, 2, sign=0)))
         else:
             raise ValueError(kind)
-    return out
+    return out[0]
